@@ -76,6 +76,11 @@ Section Backtest.
   (** backtest(): the summary is computed from the engine returned by the run *)
   Definition backtest (s0 : St) (feed : list ev) : R := summarise (final (run s0 feed)).
 
+  (** run_backtests(): one backtest per argument set, results collected in ARGUMENT order
+      (try_join_all): the summary at output position i is the summary of the i-th backtest *)
+  Definition run_backtests (s0 : St) (feeds : list (list ev)) : list R :=
+    map (backtest s0) feeds.
+
   (** executable merge used by the correspondence check: [choices] says, tick by tick, whether
       the next event came from the market side (true) or the account side (false); what is left
       over afterwards follows (market side first). None if a choice cannot be honoured. *)
@@ -146,6 +151,7 @@ Arguments accounts {M A} l.
 Arguments is_shutdown {M A} e.
 Arguments admissible {M A} dataset accts feed.
 Arguments backtest {M A St R} step summarise s0 feed.
+Arguments run_backtests {M A St R} step summarise s0 feeds.
 Arguments weave {M A} ms acs choices.
 Arguments mkEng {M A St} e_state e_feed e_done e_stop.
 Arguments e_state {M A St} e.
